@@ -1,287 +1,111 @@
-import P2sh.Props.BcvStep1
-import P2sh.Props.BcvStep2
-import P2sh.Props.BcvStep3
-import P2sh.Props.BcvStep4
+import P2sh.Props.BcvStore5
 /-!
 # Bcv — the bytecode verifier is sound for the VM model (C07: stack heights; C08: no panic)
 
-`Bcv.check` accepts a function's code only with a table of operand-stack heights that satisfies the local
-condition `okAt` at every entry.  This file proves that the table is an invariant of the VM model:
+`Bcv.checkProgram consts main = .ok _` (`ProgOk`): the main code and every function constant pass `Bcv.check`
+(a table of operand-stack heights satisfying the local condition `okAt` at every entry) and the constants are plain.
+For such programs, along every run of the VM model `Vm.run`:
 
-* `Inv` (`P2sh/Props/BcvInv.lean`): every frame on the frame stack runs checked code, the top frame stands at an
-  offset `ip` with `sp = bp + numLocals + H[ip]`, every suspended frame stands just after its `Call` at the
-  height it will have on return (`callee.bp = bp + numLocals + H[ip]`), function frames have `1 ≤ bp`,
-  `bp + numLocals ≤ STACK_SIZE`, the stack / globals arrays keep their sizes, the constants are the pool's.
-* `tick_inv`: one iteration of `VM::run` (`tick`) from a state with `Inv` and the closure discipline `CD` does not
-  panic (other than the memory exclusion "capacity overflow") and re-establishes `Inv`.
-* `CD` (closures in stack slots are checked functions with a long enough captured vector; so are the running frames)
-  is what the store typing `SInv` (`P2sh/Props/BcvStore*.lean`) provides.
+* **the invariant** is `Inv consts s ∧ SInv consts s`:
+  - `Inv` (`BcvInv.lean`): every frame runs checked code; the top frame stands at an offset `ip` with
+    `sp = bp + numLocals + H[ip]` (`H` the table of its function; the end of the main code counts with height 0); every
+    suspended frame stands just after its `Call`, at the height it will have on return (`callee.bp = bp + numLocals + H[ip]`);
+    function frames have `1 ≤ bp`; `bp + numLocals ≤ STACK_SIZE`; the stack and globals arrays keep their sizes; the
+    constants are the pool's;
+  - `SInv` (`BcvStore.lean`, the store typing): every closure value anywhere (stack slots, globals, constants, heap objects,
+    running frames) is a checked function constant whose captured vector in the heap has at least `freeNeed` entries, and no
+    array / map value aliases a captured vector.
+* `init_inv_full`, `step_preserves_inv`, `no_panic_step`, `vm_safe`; `sound_heights`, `loop_constant_stack`.
+
+The only `Res.panic` left is the memory exclusion of property C08: the message "capacity overflow" (`"s" * n` beyond
+2^24 bytes, `P2sh.Props.C09.hugeRepeat`).
 -/
 namespace P2sh.Props.Bcv
 open P2sh P2sh.Vm P2sh.Bcv P2sh.Code P2sh.Props.BcvWp
 
-theorem shapeOf_names {n : String} {ws : List Nat} (h : shapeOf n = some ws) :
-    n ∈ ["Constant", "Jump", "JumpIfFalse", "JumpIfFalseNoPop", "DefineGlobal", "GetGlobal", "SetGlobal", "Array", "Map", "Call", "DefineLocal", "GetLocal", "SetLocal", "GetBuiltinFn", "GetBuiltinVar", "GetFree", "SetFree", "GetProp", "SetProp", "Closure", "Pop", "Add", "Sub", "Mul", "Div", "Mod", "True", "False", "Equal", "NotEqual", "Greater", "GreaterEq", "Minus", "Bang", "Null", "GetIndex", "SetIndex", "ReturnValue", "Return", "CurrClosure", "Not", "And", "Or", "Xor", "ShiftLeft", "ShiftRight", "Dup", "Dollar"] := by
-  unfold shapeOf at h
-  split at h <;> first | (cases h; done) | simp
-
-section
-variable {consts : List Val} {s : St} {f : Frame} {rest : List Frame} {sm : Summary} {i : Instr} {ws : List Nat}
-  {h : Nat} {succs : List (Nat × Nat)}
-
-/-- every opcode: the instruction of a checked frame executes without panic and re-establishes the invariant -/
-theorem goal_all (T : Top consts s f rest sm i ws h succs) (hC : CD consts s) (line : Nat) : Goal consts s f line := by
-  have hm := shapeOf_names T.shape
-  simp only [List.mem_cons, List.mem_nil_iff, or_false] at hm
-  rcases hm with hn | hn | hn | hn | hn | hn | hn | hn | hn | hn | hn | hn | hn | hn | hn | hn | hn | hn | hn | hn | hn | hn | hn | hn | hn | hn | hn | hn | hn | hn | hn | hn | hn | hn | hn | hn | hn | hn | hn | hn | hn | hn | hn | hn | hn | hn | hn | hn
-  · exact t_Constant T line hn
-  · exact t_Jump T line hn
-  · exact t_JumpIfFalse T line hn
-  · exact t_JumpIfFalseNoPop T line hn
-  · exact t_DefineGlobal T line hn
-  · exact t_GetGlobal T line hn
-  · exact t_SetGlobal T line hn
-  · exact t_Array T line hn
-  · exact t_Map T line hn
-  · exact t_Call T hC line hn
-  · exact t_DefineLocal T line hn
-  · exact t_GetLocal T line hn
-  · exact t_SetLocal T line hn
-  · exact t_GetBuiltinFn T line hn
-  · exact t_GetBuiltinVar T line hn
-  · exact t_GetFree T hC line hn
-  · exact t_SetFree T hC line hn
-  · exact t_GetProp T line hn
-  · exact t_SetProp T line hn
-  · exact t_Closure T line hn
-  · exact t_Pop T line hn
-  · exact t_Add T line hn
-  · exact t_Sub T line hn
-  · exact t_Mul T line hn
-  · exact t_Div T line hn
-  · exact t_Mod T line hn
-  · exact t_True T line hn
-  · exact t_False T line hn
-  · exact t_Equal T line hn
-  · exact t_NotEqual T line hn
-  · exact t_Greater T line hn
-  · exact t_GreaterEq T line hn
-  · exact t_Minus T line hn
-  · exact t_Bang T line hn
-  · exact t_Null T line hn
-  · exact t_GetIndex T line hn
-  · exact t_SetIndex T line hn
-  · exact t_ReturnValue T line hn
-  · exact t_Return T line hn
-  · exact t_CurrClosure T line hn
-  · exact t_Not T line hn
-  · exact t_And T line hn
-  · exact t_Or T line hn
-  · exact t_Xor T line hn
-  · exact t_ShiftLeft T line hn
-  · exact t_ShiftRight T line hn
-  · exact t_Dup T line hn
-  · exact t_Dollar T line hn
-
-/-- **one iteration of `VM::run` preserves the invariant and does not panic** -/
-theorem tick_inv (hI : Inv consts s) (hC : CD consts s) : wp tick (fun _ s' => Inv consts s') s := by
-  obtain ⟨f, rest, hf, _, _⟩ := hI.top
-  unfold tick
-  simp only [wp_bind, wp_curFrame', hf, wp_ite]
-  split
-  · rename_i hlt
-    obtain ⟨hlines, sm, i, ws, h, succs, T⟩ := top_of_inv hI hf hlt
-    have hl : f.fn.lines[f.ip]? = some (f.fn.lines[f.ip]) := List.getElem?_eq_getElem hlines
-    rw [hl]
-    have hg := goal_all T hC (f.fn.lines[f.ip])
-    unfold Goal at hg
-    simp only [wp_bind, wp_pure] at hg ⊢
-    exact hg
-  · simp only [wp_pure]
-    exact hI
-end
-
-/-! ## accepted programs -/
-
-theorem go_ok (consts : List Val) : ∀ (cs : List Val) (i : Nat) (r : List (Nat × Summary)),
-    checkProgram.go consts i cs = .ok r → ∀ g, Val.func g ∈ cs → ∃ sm, check consts .func g = .ok sm := by
-  intro cs
-  induction cs with
-  | nil => intro i r _ g hg; cases hg
-  | cons c cs ih =>
-    intro i r h g hg
-    cases c with
-    | func g' =>
-      unfold checkProgram.go at h
-      cases hc : check consts .func g' with
-      | error e => simp [hc, bind, Except.bind] at h
-      | ok sm =>
-        simp only [hc, bind, Except.bind, pure, Except.pure] at h
-        cases hgo : checkProgram.go consts (i + 1) cs with
-        | error e => simp [hgo] at h
-        | ok r' =>
-          rcases List.mem_cons.mp hg with heq | hmem
-          · cases heq; exact ⟨sm, hc⟩
-          · exact ih _ _ hgo g hmem
-    | _ =>
-      unfold checkProgram.go at h
-      rcases List.mem_cons.mp hg with heq | hmem
-      · cases heq
-      · exact ih _ _ h g hmem
-
-theorem checkProgram_ok {consts : List Val} {main : FnDef} {ps : ProgSummary} (h : checkProgram consts main = .ok ps) :
-    consts.all plainConst = true ∧ (∃ sm, check consts .main main = .ok sm) ∧
-      ∀ g, Val.func g ∈ consts → ∃ sm, check consts .func g = .ok sm := by
-  unfold checkProgram at h
-  by_cases hp : consts.all plainConst = true
-  · cases hm : check consts .main main with
-    | error e => simp [hp, hm, bind, Except.bind] at h
-    | ok sm =>
-      simp only [hp, hm, bind, Except.bind, pure, Except.pure] at h
-      cases hgo : checkProgram.go consts 0 consts with
-      | error e => simp [hgo] at h
-      | ok r => exact ⟨hp, ⟨sm, rfl⟩, go_ok consts consts 0 r hgo⟩
-  · simp [hp, bind, Except.bind] at h
-
-/-- `checkProgram` accepts: the main code, every function constant, plain constants -/
-def ProgOk (consts : List Val) (main : FnDef) : Prop := ∃ ps, checkProgram consts main = .ok ps
-
-/-- the states at the iteration boundaries of `VM::run` started in `s0` -/
-inductive Reach (s0 : St) : St → Prop
-  | init : Reach s0 s0
-  | step {s s' : St} : Reach s0 s → exec tick s = (.ok true, s') → Reach s0 s'
-
 section
 variable {consts : List Val} {main : FnDef}
 
-/-- the initial state satisfies the invariant -/
-theorem init_inv (hp : ProgOk consts main) : Inv consts (initState main consts) := by
+/-- the whole invariant: frame stack + store typing -/
+def FullInv (consts : List Val) (s : St) : Prop := Inv consts s ∧ SInv consts s
+
+theorem progOk_fns (hp : ProgOk consts main) : ∀ g, Val.func g ∈ consts → ∃ sm, Bcv.check consts .func g = .ok sm := by
   obtain ⟨ps, hps⟩ := hp
-  obtain ⟨_, ⟨sm, hsm⟩, _⟩ := checkProgram_ok hps
-  obtain ⟨hacc, hnl, hz⟩ := check_ok hsm
-  have hz' : main.numLocals = 0 := hz rfl
-  refine ⟨⟨_, [], rfl, ⟨sm, 0, hsm, accept_entry hacc, ?_, ?_⟩, rfl⟩, ?_, ?_, rfl⟩
-  · show 0 = 0 + main.numLocals + 0
-    omega
-  · show 0 + main.numLocals ≤ stackSize
-    unfold stackSize; omega
-  · simp [initState]
-  · simp [initState]
+  exact (checkProgram_ok hps).2.2
 
-/-- **`step_preserves_inv`**: a successful iteration leads to a state satisfying the invariant -/
-theorem step_preserves_inv {s s' : St} {b : Bool} (hI : Inv consts s) (hC : CD consts s) (he : exec tick s = (.ok b, s')) :
-    Inv consts s' := wp_ok (a := b) (tick_inv hI hC) he
+/-- **`init_inv`**: the initial state of an accepted program satisfies the invariant -/
+theorem init_inv_full (hp : ProgOk consts main) : FullInv consts (initState main consts) := by
+  obtain ⟨ps, hps⟩ := hp
+  exact ⟨init_inv ⟨ps, hps⟩, sinv_init main (checkProgram_ok hps).1⟩
 
-/-- **`no_panic_step`**: an iteration from a state satisfying the invariant never yields `Res.panic`, except
-the memory exclusion of property C08 (`"capacity overflow"`: a string repetition beyond 2^24 bytes); it may yield a
-runtime error (`err`) or `unmodelled` (packet / IO opcodes and builtins) -/
-theorem no_panic_step {s s' : St} {msg : String} (hI : Inv consts s) (hC : CD consts s)
-    (he : exec tick s = (.error (.panic msg), s')) : msg = "capacity overflow" := wp_no_panic (tick_inv hI hC) he
+/-- **`step_preserves_inv`** (full invariant): a successful iteration of `VM::run` re-establishes it -/
+theorem step_preserves_full {s s' : St} {b : Bool} (hp : ProgOk consts main) (hI : FullInv consts s)
+    (he : exec tick s = (.ok b, s')) : FullInv consts s' :=
+  wp_ok (a := b) (tick_inv_sinv (progOk_fns hp) hI.1 hI.2) he
 
-theorem reach_inv {s0 s : St} (h0 : Inv consts s0) (hCD : ∀ s, Reach s0 s → CD consts s) (hr : Reach s0 s) : Inv consts s := by
+/-- **`no_panic_step`** (full invariant): an iteration from a state satisfying the invariant never yields `Res.panic`
+other than the memory exclusion; it may yield a runtime error or `unmodelled` -/
+theorem no_panic_step_full {s s' : St} {msg : String} (hI : FullInv consts s)
+    (he : exec tick s = (.error (.panic msg), s')) : msg = "capacity overflow" :=
+  no_panic_step hI.1 (sinv_cd hI.2) he
+
+/-- every state at an iteration boundary of a run of an accepted program satisfies the invariant -/
+theorem reach_full (hp : ProgOk consts main) {s : St} (hr : Reach (initState main consts) s) : FullInv consts s := by
   induction hr with
-  | init => exact h0
-  | step hr he ih => exact step_preserves_inv ih (hCD _ hr) he
+  | init => exact init_inv_full hp
+  | step _ he ih => exact step_preserves_full hp ih he
 
-theorem runLoop_safe {s0 : St} (h0 : Inv consts s0) (hCD : ∀ s, Reach s0 s → CD consts s) :
-    ∀ (fuel : Nat) (s : St), Reach s0 s → ∀ msg s', exec (runLoop fuel) s = (.error (.panic msg), s') → msg = "capacity overflow" := by
-  intro fuel
-  induction fuel with
-  | zero =>
-    intro s _ msg s' he
-    simp [runLoop, exec_throw] at he
-  | succ fuel ih =>
-    intro s hr msg s' he
-    rw [exec_runLoop_succ] at he
-    have hI := reach_inv h0 hCD hr
-    cases ht : exec tick s with
-    | mk r s1 =>
-      rw [ht] at he
-      cases r with
-      | error e =>
-        simp only at he
-        cases he
-        exact no_panic_step hI (hCD _ hr) ht
-      | ok b =>
-        cases b with
-        | true => exact ih s1 (Reach.step hr ht) msg s' he
-        | false => simp at he
+/-- the closure discipline holds along every run: the assumption of the `_partial` theorems is discharged -/
+theorem cd_reach (hp : ProgOk consts main) (s : St) (hr : Reach (initState main consts) s) : CD consts s :=
+  sinv_cd (reach_full hp hr).2
 
-/-- **`vm_safe`, relative to the closure discipline**: on a program accepted by `checkProgram` the VM model never
-ends in a panic (other than the memory exclusion), provided `CD` holds at every reachable state -/
-theorem vm_safe_partial (hp : ProgOk consts main)
-    (hCD : ∀ s, Reach (initState main consts) s → CD consts s) (fuel : Nat) (msg : String) :
-    (run main consts fuel).1 = .error (.panic msg) → msg = "capacity overflow" := by
-  intro h
-  have := runLoop_safe (init_inv hp) hCD fuel _ Reach.init msg (run main consts fuel).2
-  apply this
-  show exec (runLoop fuel) (initState main consts) = _
-  rw [← h]
-  rfl
+/-- **`vm_safe`**: on a program accepted by `Bcv.checkProgram`, `Vm.run` never returns `panic` (for any fuel), except
+the memory exclusion "capacity overflow" -/
+theorem vm_safe (hp : ProgOk consts main) (fuel : Nat) (msg : String) :
+    (run main consts fuel).1 = .error (.panic msg) → msg = "capacity overflow" :=
+  vm_safe_partial hp (cd_reach hp) fuel msg
 
-/-- **`sound_heights`** (state form): in a state satisfying the invariant, the frame on top runs checked code and,
-when its `ip` is inside the code, the verifier's table has an entry for `ip` and `sp - bp - numLocals` is that height -/
-theorem sound_heights_inv {s : St} {f : Frame} {rest : List Frame} (hI : Inv consts s) (hf : s.frames = f :: rest)
-    (hlt : f.ip < f.fn.code.length) :
-    ∃ sm h, check consts (kindOf rest) f.fn = .ok sm ∧ sm.heightAt f.ip = some h ∧ s.sp = f.bp + f.fn.numLocals + h := by
-  obtain ⟨_, sm, i, ws, h, succs, T⟩ := top_of_inv hI hf hlt
-  obtain ⟨f', rest', hf', ⟨sm', h', hck, hsucc, hsp, _⟩, _⟩ := hI.top
-  rw [hf] at hf'
-  cases hf'
-  exact ⟨sm', h', hck, succOk_lt hsucc hlt, hsp⟩
-
-/-- the same for a suspended frame `f` (with `b` the base pointer of the frame above it): it stands at a checked
-offset, and `b` is the stack pointer the verifier's height predicts for the moment the call returns -/
-theorem sound_heights_suspended {f : Frame} {rest : List Frame} {b : Nat} (hb : Below consts (f :: rest) b)
-    (hlt : f.ip < f.fn.code.length) :
-    ∃ sm h, check consts (kindOf rest) f.fn = .ok sm ∧ sm.heightAt f.ip = some h ∧ b = f.bp + f.fn.numLocals + h := by
-  obtain ⟨_, ⟨sm, h, hck, hsucc, hsp, _⟩, _⟩ := hb
-  exact ⟨sm, h, hck, succOk_lt hsucc hlt, hsp⟩
-
-theorem below_tail {f : Frame} {rest : List Frame} {b : Nat} (hb : Below consts (f :: rest) b) : Below consts rest f.bp :=
-  hb.2.2
-
-/-- **`sound_heights`**: along every execution of an accepted program (given the closure discipline), whenever
-the running frame's `ip` is inside its code, `sp - bp - numLocals` is the height the verifier computed for `ip` -/
-theorem sound_heights_partial (hp : ProgOk consts main)
-    (hCD : ∀ s, Reach (initState main consts) s → CD consts s) {s : St} (hr : Reach (initState main consts) s)
+/-- **`sound_heights`**: along every execution of an accepted program, whenever the running frame's `ip` is inside its
+code, the verifier's table (of that frame's function) has an entry for `ip` and `sp = bp + numLocals + that height`;
+`kindOf rest` is `.main` for the bottom frame and `.func` for every other frame -/
+theorem sound_heights (hp : ProgOk consts main) {s : St} (hr : Reach (initState main consts) s)
     {f : Frame} {rest : List Frame} (hf : s.frames = f :: rest) (hlt : f.ip < f.fn.code.length) :
     ∃ sm h, check consts (kindOf rest) f.fn = .ok sm ∧ sm.heightAt f.ip = some h ∧ s.sp = f.bp + f.fn.numLocals + h :=
-  sound_heights_inv (reach_inv (init_inv hp) hCD hr) hf hlt
+  sound_heights_partial hp (cd_reach hp) hr hf hlt
 
-/-- **`loop_constant_stack`**: two visits of the same instruction of the same function (a loop head, for example)
-see the same operand-stack height, whatever happened in between — loops, calls, closures, `match`, `break` included -/
-theorem loop_constant_stack_inv {s1 s2 : St} {f1 f2 : Frame} {r1 r2 : List Frame} (h1 : Inv consts s1) (h2 : Inv consts s2)
-    (hf1 : s1.frames = f1 :: r1) (hf2 : s2.frames = f2 :: r2) (hfn : f1.fn = f2.fn) (hip : f1.ip = f2.ip)
-    (hk : kindOf r1 = kindOf r2) (hlt : f1.ip < f1.fn.code.length) :
-    s1.sp - (f1.bp + f1.fn.numLocals) = s2.sp - (f2.bp + f2.fn.numLocals) := by
-  obtain ⟨sm1, a, hc1, ha, hs1⟩ := sound_heights_inv h1 hf1 hlt
-  obtain ⟨sm2, b, hc2, hb, hs2⟩ := sound_heights_inv h2 hf2 (by rw [← hfn, ← hip]; exact hlt)
-  rw [hfn, hk] at hc1
-  rw [hc1] at hc2
-  cases hc2
-  rw [hip] at ha
-  rw [ha] at hb
-  cases hb
-  omega
-
-theorem loop_constant_stack_partial (hp : ProgOk consts main)
-    (hCD : ∀ s, Reach (initState main consts) s → CD consts s) {s1 s2 : St}
+/-- **`loop_constant_stack`**: any two visits of the same instruction of the same function (e.g. a loop head) see the
+same operand-stack height — for all checked code: loops, functions, closures, `match`, `break` / `continue` included -/
+theorem loop_constant_stack (hp : ProgOk consts main) {s1 s2 : St}
     (hr1 : Reach (initState main consts) s1) (hr2 : Reach (initState main consts) s2)
     {f1 f2 : Frame} {r1 r2 : List Frame} (hf1 : s1.frames = f1 :: r1) (hf2 : s2.frames = f2 :: r2)
     (hfn : f1.fn = f2.fn) (hip : f1.ip = f2.ip) (hk : kindOf r1 = kindOf r2) (hlt : f1.ip < f1.fn.code.length) :
     s1.sp - (f1.bp + f1.fn.numLocals) = s2.sp - (f2.bp + f2.fn.numLocals) :=
-  loop_constant_stack_inv (reach_inv (init_inv hp) hCD hr1) (reach_inv (init_inv hp) hCD hr2) hf1 hf2 hfn hip hk hlt
+  loop_constant_stack_partial hp (cd_reach hp) hr1 hr2 hf1 hf2 hfn hip hk hlt
 
-/-- a terminated run of an accepted program leaves the operand stack empty (`sp = 0`): the main code's end has height 0 -/
-theorem end_height_zero {s : St} {f : Frame} (hI : Inv consts s) (hf : s.frames = [f]) (hend : f.ip = f.fn.code.length) :
-    s.sp = f.fn.numLocals := by
-  obtain ⟨f', rest', hf', ⟨sm, h, hck, hsucc, hsp, _⟩, hb⟩ := hI.top
+/-- top-level statements are balanced: whenever the main code is at an offset the verifier computed height `0` for
+(pc 0, the end of the code, every statement boundary recorded in `Summary.stmtStarts` with height 0), the operand stack
+is empty -/
+theorem main_statement_boundary (hp : ProgOk consts main) {s : St} (hr : Reach (initState main consts) s)
+    {f : Frame} (hf : s.frames = [f]) (hlt : f.ip < f.fn.code.length) :
+    ∃ sm h, check consts .main f.fn = .ok sm ∧ sm.heightAt f.ip = some h ∧ s.sp = h := by
+  obtain ⟨sm, h, hck, hh, hsp⟩ := sound_heights hp hr hf hlt
+  have hI := (reach_full hp hr).1
+  obtain ⟨f', rest', hf', ⟨_, _, hck', _, _, _⟩, hb⟩ := hI.top
   rw [hf] at hf'
   cases hf'
   have hb0 : f.bp = 0 := hb
-  unfold succOk at hsucc
-  simp [hend] at hsucc
+  have hz := (check_ok hck).2.2 rfl
+  exact ⟨sm, h, hck, hh, by omega⟩
+
+/-- a run of an accepted program that reaches the end of the main code ends with an empty operand stack -/
+theorem run_ends_balanced (hp : ProgOk consts main) {s : St} (hr : Reach (initState main consts) s)
+    {f : Frame} (hf : s.frames = [f]) (hend : f.ip = f.fn.code.length) : s.sp = 0 := by
+  have hI := (reach_full hp hr).1
+  have h1 := end_height_zero hI hf hend
+  obtain ⟨f', rest', hf', ⟨sm, _, hck, _, _, _⟩, _⟩ := hI.top
+  rw [hf] at hf'
+  cases hf'
+  have hz := (check_ok hck).2.2 rfl
   omega
 end
 
@@ -310,6 +134,7 @@ example : isOk (check [.int 1] .main (mk [0,0,1, 1])) = false := by decide +kern
 example : isOk (checkProgram [.func (mk [35,0, 27])] (mk [34,0,0,0, 26,0, 1])) = false := by decide +kernel
 /-- `return` in the main code (the VM would compute `bp - 1` with `bp = 0`) -/
 example : isOk (check [] .main (mk [18, 27])) = false := by decide +kernel
+
 
 
 end P2sh.Props.Bcv
